@@ -133,7 +133,7 @@ func genTransport(g *rand.Rand, tier string) any {
 		for i := 0; i < m; i++ {
 			k := g.IntN(8)
 			if p.Kind == 2 {
-				k = g.IntN(7)
+				k = g.IntN(8)
 			}
 			p.Raw = append(p.Raw, RawIn{Kind: k, Seed: g.Uint64()})
 		}
@@ -433,6 +433,23 @@ func execWebsocketTransport(e *Env, p *TransportParams) {
 	}
 }
 
+// brokenBody yields data and then fails (not io.EOF): a request body whose
+// upload broke off part-way.
+type brokenBody struct {
+	data []byte
+	off  int
+}
+
+func (b *brokenBody) Read(p []byte) (int, error) {
+	if b.off >= len(b.data) {
+		return 0, errors.New("simulated: connection reset during upload")
+	}
+	n := copy(p, b.data[b.off:])
+	b.off += n
+	return n, nil
+}
+func (b *brokenBody) Close() error { return nil }
+
 // memRoundTripper routes http://<addr>/ to the GoatOverHttp registered for addr.
 type memRoundTripper struct {
 	e     *Env
@@ -556,7 +573,12 @@ func execHTTPTransport(e *Env, p *TransportParams) {
 			var body io.ReadCloser
 			valid := genEnvelope(ri.Seed, true, false)
 			want400 := true
-			switch ri.Kind % 7 {
+			switch ri.Kind % 8 {
+			case 7:
+				// an upload that breaks off: the bytes that did arrive are a decodable
+				// prefix (id and header - fields are encoded in order), then the read fails
+				pre, _ := proto.Marshal(&Rpc{Id: valid.GetId(), Header: valid.GetHeader()})
+				body = &brokenBody{data: pre}
 			case 0:
 				body = nil
 			case 1:
@@ -595,11 +617,11 @@ func execHTTPTransport(e *Env, p *TransportParams) {
 			if rr == Crashed || rr == StepLimit {
 				return
 			}
-			e.Note(fmt.Sprintf("http.raw.kind%d", ri.Kind%7))
-			e.Log(fmt.Sprintf("http.raw.kind%d", ri.Kind%7), "", code, "")
+			e.Note(fmt.Sprintf("http.raw.kind%d", ri.Kind%8))
+			e.Log(fmt.Sprintf("http.raw.kind%d", ri.Kind%8), "", code, "")
 			e.Note("nontrivial")
 			if want400 && code != 400 {
-				e.Violate(prop, "malformed-not-400", "http.ServeHTTP", "malformed request kind %d answered with HTTP %d, want 400", ri.Kind%7, code)
+				e.Violate(prop, "malformed-not-400", "http.ServeHTTP", "malformed request kind %d answered with HTTP %d, want 400", ri.Kind%8, code)
 			}
 			if !want400 && code != 200 {
 				e.Violate(prop, "wellformed-rejected", "http.ServeHTTP", "well-formed request answered with HTTP %d", code)
